@@ -73,7 +73,7 @@ def generate(rng, tier, idx):
                       'memmap': rng.random() < 0.7, 'additional': rng.random() < 0.3, 'header': rng.random() < 0.8})
     if rng.random() < 0.3:
         from ..author import prelude_spec
-        sc['prelude'] = {'world': prelude_spec(w, rng), 'seed': rng.randrange(1 << 30)}
+        sc['prelude'] = {'world': prelude_spec(w, rng), 'seed': rng.randrange(1 << 30), 'leftover_gz': rng.random() < 0.4}
     sc['channel'] = channel
     sc['steps'] = steps
     return sc
@@ -123,7 +123,7 @@ def _execute(sc, sim, out):
     sc = dict(sc, theta=pipe.theta_for(W, rng, len(W.fspec), dmin=sc['drange'][0]))
     if sc.get('prelude'):
         pipe.run_prelude(sim, sc, out, d=sim.path('pkg'))
-    d = W.write(sim.path('pkg'))
+    d = W.write(sim.path('pkg'), keep_convolved=bool(sc.get('prelude') and sc['prelude'].get('leftover_gz')))
     r = pipe.call(pipe.convolve_model_dir, d, W.filters())
     if r[0] != 'ok':
         out.discarded = 'setup-convolve:' + pipe.exc_name(r)
